@@ -1119,7 +1119,21 @@ class TermBuilder:
                     star_choice = (len(kws), v)
                     kws.append(("**", v))
                 else:
-                    kws.append(("**", v))
+                    upd = self._dict_updates(k.value, at, env)
+                    if upd is None:
+                        kws.append(("**", v))
+                    elif upd == "opaque":
+                        # filled by stores this builder does not model (in a loop, under a condition, computed keys, update()):
+                        # the call does not pass the dict its name was bound to
+                        kws.append(("**", ("mutated", v)))
+                    else:
+                        # d = <dict>; d["k"] = x; f(**d)  is  f(**<dict>, k=x)
+                        base = [("**", v)]
+                        if v[0] == "dict" and all(kk[0] == "const" and isinstance(kk[1], str) and kk[1] != "**" for kk, _ in v[1]):
+                            base = [(kk[1], vv) for kk, vv in v[1]]
+                        for kk, vv in upd:
+                            base = [x for x in base if x[0] != kk] + [(kk, vv)]
+                        kws.extend(base)
             else:
                 kws.append((k.arg, T(k.value)))
         if star_choice is not None:
@@ -1132,6 +1146,44 @@ class TermBuilder:
                 return ("gphi", frozenset(outs))
             return phi(c for _l, c in outs)
         return self._finish_call(canon_call(func, tuple(args), tuple(kws)))
+
+    def _dict_updates(self, node, at, env):
+        """For a local name passed as **name: None when its object is never changed in place; [(key, value term)] when every
+        change is a plain store name["const"] = value that is executed exactly once between the binding and the call
+        (same block nesting as the call, no loop); "opaque" otherwise."""
+        if not isinstance(node, ast.Name) or not self._mutated_local(node):
+            return None
+        cfg = cfg_of(self.fn)
+        try:
+            use = cfg.node(at)
+        except Exception:
+            return "opaque"
+        defs = [d for d in self.rd.reaching(node.id, at) if d.kind != "param"] if hasattr(self, "rd") else []
+        if len(defs) != 1 or getattr(defs[0], "stmt", None) is None:
+            return "opaque"
+        dnode = cfg.node(defs[0].stmt)
+        out = []
+        for st in cfg.all_stmts():
+            hit = None
+            for n in _stmt_own_walk(st):
+                if isinstance(n, ast.Subscript) and isinstance(n.value, ast.Name) and n.value.id == node.id and not isinstance(n.ctx, ast.Load):
+                    hit = n
+                if isinstance(n, ast.Attribute) and isinstance(n.value, ast.Name) and n.value.id == node.id and n.attr in ("update", "pop", "setdefault", "clear", "popitem"):
+                    return "opaque"
+            if hit is None:
+                continue
+            sn = cfg.node(st)
+            if not (cfg.reachable(dnode, sn) and cfg.reachable(sn, use)):
+                if cfg.reachable(sn, use) or cfg.reachable(dnode, sn):
+                    return "opaque"
+                continue
+            simple = isinstance(st, ast.Assign) and len(st.targets) == 1 and st.targets[0] is hit and isinstance(hit.slice, ast.Constant) \
+                and isinstance(hit.slice.value, str) and not cfg.enclosing_loops(st) \
+                and cfg.dominates(dnode, sn) and cfg.dominates(sn, use) and [id(p) for p, _ in cfg.enclosing(st)] == [id(p) for p, _ in cfg.enclosing(at)][:len(cfg.enclosing(st))]
+            if not simple:
+                return "opaque"
+            out.append((st.lineno, hit.slice.value, self.term(st.value, st, env)))
+        return [(k, v) for _ln, k, v in sorted(out, key=lambda x: x[0])]
 
     def _mutated_local(self, node):
         """node is a local name whose object is filled by later stores (its term is then only the initial display)."""
@@ -1363,6 +1415,18 @@ def _free_helper(fi):
         # a local helper function of the enclosing function (a small closure), unless some rule talks about it
         return not n.startswith("__") and not named_by_rules(n)
     return n.startswith("_") and not n.startswith("__") and n not in anchor_names()
+
+
+def _stmt_own_walk(st):
+    """Nodes evaluated by the statement itself (not by the statements nested in its blocks)."""
+    todo = []
+    for name, val in ast.iter_fields(st):
+        if name in ("body", "orelse", "finalbody", "handlers"):
+            continue
+        todo.extend(val if isinstance(val, list) else [val])
+    for v in todo:
+        if isinstance(v, ast.AST):
+            yield from ast.walk(v)
 
 
 def _own_walk(fnode):
